@@ -162,6 +162,11 @@ json generate(uint64_t seed, uint64_t idx, int tier)
 	w["passwd"] = json::array({{{"name", "root"}, {"uid", 0}, {"dir", "/root"}}, {{"name", "alice"}, {"uid", 1000}, {"dir", "/home/alice"}}, {{"name", "bob"}, {"uid", 1001}, {"dir", "/home/bob"}}});
 	static const unsigned euids[] = {0, 1000, 1001, 4242};
 	w["euid"] = euids[r.below(4)];
+	// the account database decides, not the environment: HOME points somewhere else, or is not set
+	if (r.chance(3, 4)) {
+		static const char *homes[] = {"/c", "/home/bob", "/a/sub", "/nowhere", ""};
+		w["env"] = {{"HOME", homes[r.below(5)]}};
+	}
 	plan["world"] = w;
 	plan["knobs"] = {{"fill", 0xA5}};
 	json steps = json::array();
